@@ -9,7 +9,7 @@ C02_PREDS = ["C02_BadRequestInert", "C02_BadResponseInert", "C02_ErrorInert", "C
 C03_PREDS = ["C03_SelValidated", "C03_LiteSelectsOnNomination", "C03_NoUCFromControlled", "C03_LiteNeverRequests", "C03_NoDowngrade"]
 C04_PREDS = ["C04_TimingRule", "C04_CheckingDeadline", "C04_LifecycleStrict", "C04_NotifiedIsActual", "C04_SelWhileConnected",
              "C04_ReleasedOnFailed"]
-C05_PREDS = ["C05_Rule"]
+C05_PREDS = ["C05_Rule", "C05_SwitchOnlyOnConflict"]
 C01_PREDS = ["C01_Mirror", "C01_Converges", "C01_NeverWithoutPath"]
 SESSION_ASSUME = ["UDP host/srflx/prflx candidates on a simulated datagram network (TCP candidates are covered by C14/C15)",
                   "ticks happen at harness-chosen points (hook H1), over-approximating the agent's timers",
